@@ -920,6 +920,14 @@ func startWatchdog() {
 				}
 				em := wd.em
 				wd.mu.Unlock()
+				if wdOuter != nil {
+					// the scenario runs under a wrapper that re-emits its records into the rig's real output (cl_common.go):
+					// this record must get there before the process leaves
+					if rec.Coq != "" && wdOuterCtor != "" {
+						rec.Coq = wdOuterCtor + " (" + rec.Coq + ")"
+					}
+					em = wdOuter
+				}
 				em.Emit(rec)
 				em.Marker("end", rec.Idx)
 				em.Close()
@@ -928,6 +936,12 @@ func startWatchdog() {
 		}()
 	})
 }
+
+// set by a wrapper that buffers the scenario's records (runClientScenarioAs): where a wedge record has to go
+var (
+	wdOuter     *Emitter
+	wdOuterCtor string
+)
 
 // ---------------------------------------------------------------- running a scenario
 
